@@ -168,6 +168,49 @@ pub fn check_greeting(case: &GreetingCase) -> CaseResult {
     r
 }
 
+/// A response of very many short lines delivered in one piece, then a small one; the stream is cut
+/// at and around the two response boundaries.
+#[derive(Debug, Clone, Serialize, Deserialize)]
+pub struct MegaCut {
+    pub lines: usize,
+    /// 0: complete stream, 1: right after the first response, 2: two bytes into the second response,
+    /// 3: three bytes before the end (inside the second response's OK line), 4: inside the first response
+    pub cut: u8,
+    pub flavour: Flavour,
+}
+
+pub fn check_mega(case: &MegaCut) -> CaseResult {
+    let mut r = CaseResult::new();
+    let mut stream = Vec::with_capacity(case.lines * 5 + 16);
+    for i in 0..case.lines {
+        stream.extend_from_slice(if i % 2 == 0 { b"a: b\n" } else { b"c: d\n" });
+    }
+    stream.extend_from_slice(b"OK\n");
+    let first_end = stream.len();
+    stream.extend_from_slice(b"z: y\nOK\n");
+    let (cut, want_n, want_terminal) = match case.cut {
+        0 => (stream.len(), 2, Terminal::CleanEof),
+        1 => (first_end, 1, Terminal::CleanEof),
+        2 => (first_end + 2, 1, eof()),
+        3 => (stream.len() - 3, 1, eof()),
+        _ => (first_end - 4, 0, eof()),
+    };
+    r.nontrivial();
+    let obs = run(case.flavour, GREETING, &stream[..cut], &Seg::Whole, 0);
+    let first_ok = want_n == 0 || obs.responses.first().is_some_and(|x| x.frames.len() == 1 && x.frames[0].fields.len() == case.lines);
+    if obs.responses.len() != want_n || !first_ok || obs.terminal != want_terminal {
+        r.fail(format!(
+            "response of {} lines + a small one, cut at {cut} of {}, {:?}/whole: {} response(s) delivered (first complete: {first_ok}), stream end reported as {:?}; expected {want_n} response(s), then {want_terminal:?}",
+            case.lines,
+            stream.len(),
+            case.flavour,
+            obs.responses.len(),
+            obs.terminal
+        ));
+    }
+    r
+}
+
 fn strategy(tier: Tier) -> BoxedStrategy<Case> {
     (
         prop_oneof![
@@ -208,6 +251,20 @@ pub fn property(tier: Tier) -> Property {
                     .boxed()
                 }),
                 check: Box::new(check_greeting),
+            }),
+            Box::new(crate::core::ExhaustivePart {
+                name: "mega_response_cuts",
+                rule: "one response of N short lines (N in {70000, 200000, 300000}; thorough + 1000000) delivered in one piece (the receive buffer doubles up to the whole stream) followed by a small response; stream complete / cut right after the first response / 2 bytes into the second / 3 bytes before the end / inside the first x {blocking, async}: the complete responses before the cut must be delivered, then a clean end exactly on the two boundaries",
+                space: Box::new(|t: Tier| {
+                    let mut sizes = vec![70_000usize, 200_000, 300_000];
+                    if t == Tier::Thorough {
+                        sizes.push(1_000_000);
+                    }
+                    Box::new(sizes.into_iter().flat_map(|lines| {
+                        (0..5u8).flat_map(move |cut| [Flavour::Blocking, Flavour::Async].into_iter().map(move |flavour| MegaCut { lines, cut, flavour }))
+                    }))
+                }),
+                check: Box::new(check_mega),
             }),
         ],
         assumptions: vec!["response boundaries and cut-location classes are those recorded by the harness encoder"],
